@@ -186,6 +186,44 @@ theorem C32_unrepaired_server_counterexample :
     ((table false).raised = true ∧ (lookup 2 (table false).conns).map (·.served) = some 0) := by
   decide
 
+/-- what happens to a server: connections arrive, bytes arrive on them, `serviceAll()` runs -/
+inductive SOp
+  | connect (ca : Nat)
+  | recv (ca : Nat) (b : Bytes)
+  | serviceAll
+  deriving Repr
+
+def runSOp (max : Nat) (v : Valet) : SOp → Valet
+  | .connect ca => v.connect ca max true
+  | .recv ca b => v.recv ca b
+  | .serviceAll => v.serviceAll
+
+/-- **The server's service loop never raises**, whatever arrives on whichever connection in
+whatever order: `serviceAll` (requests, responders, transmit) keeps `raised = false`. -/
+theorem C32_server_never_raises (max : Nat) (ops : List SOp) :
+    (ops.foldl (runSOp max) {}).raised = false := by
+  have h : ∀ (ops : List SOp) (v : Valet), TableOk v → TableOk (ops.foldl (runSOp max) v) := by
+    intro ops
+    induction ops with
+    | nil => intro v hv; exact hv
+    | cons op ops ih =>
+      intro v hv
+      apply ih
+      obtain ⟨hr, hs, hn⟩ := hv
+      cases op with
+      | connect ca =>
+        have := (C32_connect_recv_safe v hs hn ca max []).1
+        refine ⟨?_, this.1, this.2⟩
+        show (v.connect ca max true).raised = false
+        unfold Valet.connect; split <;> exact hr
+      | recv ca b =>
+        have := (C32_connect_recv_safe v hs hn ca max b).2
+        refine ⟨?_, this.1, this.2⟩
+        show (v.recv ca b).raised = false
+        unfold Valet.recv; split <;> exact hr
+      | serviceAll => exact serviceAll_ok ⟨hr, hs, hn⟩
+  exact (h ops {} ⟨rfl, C32_empty_safe.1, C32_empty_safe.2⟩).1
+
 /-! ## the client -/
 
 /-- **A client receiving a malformed response records an error instead of raising**: whatever
@@ -196,15 +234,15 @@ theorem C32_client_no_raise (c : Client) (hr : c.raised = false) (hs : Safe c.rs
   unfold Client.recv
   simp only [hr, Bool.false_eq_true, if_false]
   split
-  · exact ⟨by simp [hr], hs⟩
+  · exact ⟨by simp, hs⟩
   · have hp : Safe (parse { c.rsp with msg := c.rsp.msg ++ b }).core :=
       safe_parse (s := { c.rsp with msg := c.rsp.msg ++ b }) hs
     have hnr : parseRaises { c.rsp with msg := c.rsp.msg ++ b } (parse { c.rsp with msg := c.rsp.msg ++ b }) = false := by
       simp [parseRaises, hs.2.1, hp.2.1]
     simp only [hnr, Bool.false_eq_true, if_false]
     split
-    · exact ⟨by simp [hr], safe_makeParser hp⟩
-    · exact ⟨by simp [hr], hp⟩
+    · exact ⟨by simp, safe_makeParser hp⟩
+    · exact ⟨by simp, hp⟩
 
 /-- non-vacuity: a response whose chunk size is `zz` is recorded as one errored response -/
 example :
